@@ -724,9 +724,15 @@ func runHedgedRetry(t harness.TB, st *harness.Stats, sc hedgedScen) {
 		if c["OnAbort"] != 0 {
 			bad("abort-without-abort-condition", "OnAbort fired %d times with no abort condition configured", c["OnAbort"])
 		}
+		// (a branch the hedge policy abandoned may still be on its way from the predicate to the listener when the call has
+		// long returned: the two counts are compared once they agree or have had 5 s of process time to do so)
+		for w := harness.Wait(5 * time.Second); c["retry.OnFailure"] != c["classified-as-failure"] && !w.Expired(); {
+			time.Sleep(200 * time.Microsecond)
+			mu.Lock()
+			c["retry.OnFailure"], c["classified-as-failure"] = counts["retry.OnFailure"], counts["classified-as-failure"]
+			mu.Unlock()
+		}
 		if c["retry.OnFailure"] != c["classified-as-failure"] {
-			// (both counts are final: they were read after every invocation and every announced retry had entered, and a
-			// branch delivers its event before it returns what the caller or another retry round then sees)
 			bad("policy-failure-event", "the retry policy classified %d results as failures but its OnFailure listener fired %d times", c["classified-as-failure"], c["retry.OnFailure"])
 		}
 		if c["OnRetry"] > c["OnRetryScheduled"] {
